@@ -8,7 +8,7 @@
     reread_nostrip reread_strip strip_commutes_escape site_yields_plain markup_add_escapes
     structure_preserved_partial render_stream_ok hole_is_data emit_both_implementations
     attrs_site_partial attrs_site_none_removes attrs_site_others_untouched attrs_blank_dropped
-    script_text_is_raw div_text_is_escaped attr_name_not_escaped
+    script_text_is_raw div_text_is_escaped attr_name_not_escaped pre_keeps_whitespace div_normalises_whitespace
     text_cr_not_recovered_xml attr_lf_not_recovered_xml control_char_not_wellformed_xml
 -/
 import Genshi.Lemmas.Subst
@@ -186,13 +186,13 @@ theorem reread_nostrip (m : Method) (evs : List Ev)
   readDoc_serialize_nostrip m evs hev hsafe hnest
 
 /-- … and with `strip_whitespace=True`: every run of character data additionally normalised
-    as the option documents (blanks before a newline, runs of newlines), nothing else.
-    Extra hypothesis: no whitespace-preserving element (`pre`, `textarea`). -/
+    as the option documents (blanks before a newline, runs of newlines) — except inside the
+    whitespace-preserving elements `pre`, `textarea` of xhtml / html — and nothing else. -/
 theorem reread_strip (m : Method) (evs : List Ev)
-    (hev : ∀ e ∈ evs, evOkB m e = true) (hpres : ∀ e ∈ evs, noPreserveB m e = true)
+    (hev : ∀ e ∈ evs, evOkB m e = true)
     (hsafe : TextsOk evs) (hnest : emptyOkGo m none evs = true) :
-    readDoc m (serialize m true evs) = some (coalesceStrip evs) :=
-  readDoc_serialize_strip m evs hev hpres hsafe hnest
+    readDoc m (serialize m true evs) = some (coalesceStrip m evs) :=
+  readDoc_serialize_strip m evs hev hsafe hnest
 
 /-- Whitespace stripping acts on the escaped text exactly as on the text itself. -/
 theorem strip_commutes_escape (q : Bool) (s : List Char) :
@@ -439,8 +439,7 @@ theorem attrs_blank_dropped :
 
     Hypotheses (each decidable, reported per generated case by the driver):
     `nodesOkB` — element / attribute names are names the serializer writes plainly (no boolean or
-    prefixed attribute names), no script/style (the property's exception) and no pre/textarea
-    (MISSING: whitespace-preserving elements under stripping), html void elements are empty,
+    prefixed attribute names), no script/style (the property's exception), html void elements are empty,
     markup written by the template author inside `Markup` operators is plain escaped text, format
     strings contain no `& < >` (MISSING: author markup with tags there — covered at character level
     by `hole_is_data`), values *marked safe* are plain escaped text (the property does not constrain
@@ -452,20 +451,20 @@ theorem attrs_blank_dropped :
 theorem structure_preserved_partial (m : Method) (strip : Bool) (T : List Node) (env : Env)
     (hT : nodesOkB m T = true) (hdom : listOk env T = true) (henv : EnvOk env) :
     readDoc m (serialize m strip (renderList env T)) =
-      some (if strip then coalesceStrip (expectedList env T) else coalesce (expectedList env T)) := by
+      some (if strip then coalesceStrip m (expectedList env T) else coalesce (expectedList env T)) := by
   obtain ⟨hs, hteq⟩ := list_spec m T env hT hdom henv
   have hnest : emptyOkGo m none (renderList env T) = true := by
     have := hs.closed.1 []
     simpa [emptyOkGo] using this
   cases strip with
   | false =>
-    rw [readDoc_serialize_nostrip m _ (fun e he => (hs.ev e he).1) hs.safe hnest]
-    have := hteq flushData [] []
+    rw [readDoc_serialize_nostrip m _ hs.ev hs.safe hnest]
+    have := hteq (fun _ => flushData) [] 0 [] []
     simp only [List.append_nil, ← coalesceGo_eq_with] at this
     simp [coalesce, this]
   | true =>
-    rw [readDoc_serialize_strip m _ (fun e he => (hs.ev e he).1) (fun e he => (hs.ev e he).2) hs.safe hnest]
-    have := hteq flushDataS [] []
+    rw [readDoc_serialize_strip m _ hs.ev hs.safe hnest]
+    have := hteq flushDataP (preserveElems m) 0 [] []
     simp only [List.append_nil, ← coalesceStripGo_eq_with] at this
     simp [coalesceStrip, this]
 
@@ -506,7 +505,7 @@ theorem render_stream_ok (m : Method) (T : List Node) (env : Env)
     (∀ e ∈ renderList env T, evOkB m e = true) ∧ TextsOk (renderList env T) ∧
     emptyOkGo m none (renderList env T) = true := by
   obtain ⟨hs, _⟩ := list_spec m T env hT hdom henv
-  refine ⟨fun e he => (hs.ev e he).1, hs.safe, ?_⟩
+  refine ⟨hs.ev, hs.safe, ?_⟩
   have := hs.closed.1 []
   simpa [emptyOkGo] using this
 
@@ -523,6 +522,20 @@ theorem script_text_is_raw :
 theorem div_text_is_escaped :
     serialize .html true [.start ['d', 'i', 'v'] [], .text ['a', '<', 'b'] false, .end_ ['d', 'i', 'v']]
       = ['<', 'd', 'i', 'v', '>', 'a', '&', 'l', 't', ';', 'b', '<', '/', 'd', 'i', 'v', '>'] := by
+  decide
+
+/-- inside `pre` (xhtml / html) whitespace stripping leaves character data alone … -/
+theorem pre_keeps_whitespace :
+    readDoc .xhtml (serialize .xhtml true [.start ['p', 'r', 'e'] [], .text ['a', ' ', '\n', '\n', 'b'] false,
+                                           .end_ ['p', 'r', 'e']])
+      = some [.start ['p', 'r', 'e'] [], .text ['a', ' ', '\n', '\n', 'b'] false, .end_ ['p', 'r', 'e']] := by
+  decide
+
+/-- … and elsewhere it normalises it (the only way `strip_whitespace` changes a payload) -/
+theorem div_normalises_whitespace :
+    readDoc .xhtml (serialize .xhtml true [.start ['d', 'i', 'v'] [], .text ['a', ' ', '\n', '\n', 'b'] false,
+                                           .end_ ['d', 'i', 'v']])
+      = some [.start ['d', 'i', 'v'] [], .text ['a', '\n', 'b'] false, .end_ ['d', 'i', 'v']] := by
   decide
 
 /-- attribute *names* are written as they are: a `py:attrs` key is not a value (the property
